@@ -169,6 +169,60 @@ def _readahead_explanation(obs):
       if s_late or lost_early:
         return {'after_first_stage': sorted(s_late | lost_early),
                 'before_first_stage': {k: sorted(x) for k, x in picked.items()}}
+  # The mirror image for the aggregates of the first stage of a chain: the
+  # source position is copied before the stage's aggregate state while the
+  # threads of the next stage keep pulling; what they pull in between is in the
+  # captured aggregate AND read again after the restore.  Each early aggregate:
+  # all elements, minus some of the lost ones, plus some read-ahead ones twice.
+  if not (early and late):
+    return None
+
+  def total_twice(k, dropped, twice):
+    acc = None
+    for i, d in per.items():
+      if d is None or k not in d or i in dropped:
+        continue
+      acc = _add(_kind(k), acc, d[k])
+      if i in twice:
+        acc = _add(_kind(k), acc, d[k])
+    return acc
+
+  budget = [200_000]
+
+  def recount(k, s_late):
+    rest = [i for i in cand if i not in s_late]
+    lost_opts = [set(c) for n in range(len(s_late) + 1)
+                 for c in itertools.combinations(sorted(s_late), n)]
+    for n in range(1, len(rest) + 1):
+      for tw in itertools.combinations(rest, n):
+        for lo in lost_opts:
+          budget[0] -= 1
+          if budget[0] < 0:
+            return None
+          t = total_twice(k, lo, set(tw))
+          w = want.get(k)
+          if isinstance(t, dict):
+            t = {a: b for a, b in t.items() if b}
+            w = {a: b for a, b in (w or {}).items() if b}
+          if t == w:
+            return {'lost': sorted(lo), 'twice': sorted(tw)}
+    return None
+
+  for s_late in late_sols:
+    picked = {}
+    for k in early:
+      fit = [x for x in early_sols[k] if x <= s_late]
+      if fit:
+        picked[k] = {'lost': sorted(min(fit, key=len)), 'twice': []}
+        continue
+      r = recount(k, s_late)
+      if r is None:
+        break
+      picked[k] = r
+    else:
+      if any(x['twice'] for x in picked.values()):
+        return {'after_first_stage': sorted(s_late), 'recounted': True,
+                'first_stage': picked}
   return None
 
 
@@ -497,7 +551,12 @@ class CkptFamily(common.Family):
         lost = None
         if cfg['num_threads'] and obs.get('per_elem'):
           lost = _readahead_explanation(obs)
-        if lost is not None:
+        if lost is not None and lost.get('recounted'):
+          res.append(v('resume', f"first-stage-aggregate-recounted:{cfg['level']}:threads",
+                       f"the aggregates of the first stage count source elements "
+                       f"twice that had been read ahead at a checkpoint: {lost}; "
+                       f"uninterrupted {obs['ref_res']} != resumed {obs['res']}"))
+        elif lost is not None:
           # the read-ahead loss seen through an aggregate only (the batches
           # themselves were filtered out further down, or belong to an
           # earlier stage)
